@@ -11,6 +11,7 @@ import (
 	"go/constant"
 	"go/token"
 	"go/types"
+	"math"
 	"sort"
 	"strings"
 
@@ -327,8 +328,9 @@ func sameA8(a, b ssa.Value) bool {
 }
 
 const (
-	sideUpper = 1
-	sideLower = 2 // >= 0
+	sideUpper  = 1
+	sideLower  = 2 // >= 0
+	sideNegate = 4 // not the smallest integer (operand of a negation)
 )
 
 // guardEstablishes: the edge from block d to its successor #idx bounds v on `side`.
@@ -1040,7 +1042,7 @@ func (m *a8Model) fieldBounded(f *types.Var, side int) bool {
 	return false
 }
 
-const textA8 = "A8 (client-controlled integers): a number that comes from a command argument or is parsed from client/stored text reaches an allocation size (make length/capacity/map hint), a slice bound or index, or a shift count only where dominating comparisons (on every path; through clamps, parameters — at every call site —, fields and pointer-to-int arguments) bound it above by an untainted quantity and below by zero: otherwise one command can crash the process (makeslice/index panic) or exhaust its memory; and it is incremented by a positive constant (`stop++`) only where it is bounded above — the largest integer wraps round to the smallest and the loop it limits never ends"
+const textA8 = "A8 (client-controlled integers): a number that comes from a command argument or is parsed from client/stored text reaches an allocation size (make length/capacity/map hint), a slice bound or index, or a shift count only where dominating comparisons (on every path; through clamps, parameters — at every call site —, fields and pointer-to-int arguments) bound it above by an untainted quantity and below by zero: otherwise one command can crash the process (makeslice/index panic) or exhaust its memory; and it is incremented by a positive constant (`stop++`) only where it is bounded above — the largest integer wraps round to the smallest and the loop it limits never ends; and it is negated only where it cannot be the smallest integer (a dominating `== MinInt` / range test, or the operand is `v+1`): `index = -index` leaves that one value negative and the range test that follows lets it through"
 
 func ruleA8(c *Ctx) {
 	c.S.Rule("A8-bounds", textA8, 10)
@@ -1084,6 +1086,14 @@ func ruleA8(c *Ctx) {
 						sinks = append(sinks, sink{in, b, "slice bound", sideUpper | sideLower})
 					}
 				}
+			case *ssa.UnOp:
+				// -v of the smallest integer is the smallest integer again: an index normalised by `index = -index` and then
+				// compared with a count passes the test for the one value that has no positive counterpart
+				if x.Op == token.SUB && m.tainted[x.X] {
+					if b, ok := x.X.Type().Underlying().(*types.Basic); ok && b.Info()&types.IsInteger != 0 && b.Info()&types.IsUnsigned == 0 {
+						sinks = append(sinks, sink{in, x.X, "negation", sideNegate})
+					}
+				}
 			case *ssa.BinOp:
 				if (x.Op == token.SHL || x.Op == token.SHR) && m.tainted[x.Y] {
 					sinks = append(sinks, sink{in, x.Y, "shift count", sideUpper | sideLower})
@@ -1119,6 +1129,26 @@ func ruleA8(c *Ctx) {
 		if src == "" {
 			src = "client-controlled number"
 		}
+		if s.sides == sideNegate {
+			okNeg := m.bounded(s.v, s.in.Block(), sideLower) || m.guardedGEx(s.v, s.in.Block(), math.MinInt64+1, false) || excludesMin(s.v, s.in.Block())
+			if bo, isBo := s.v.(*ssa.BinOp); isBo && bo.Op == token.ADD && !okNeg {
+				if k, isC := constInt(bo.Y); isC && k > 0 {
+					okNeg = true // v+k with k > 0 (an increment sink of its own) is above the smallest integer
+				}
+			}
+			if bo, isBo := s.v.(*ssa.BinOp); isBo && (bo.Op == token.REM || bo.Op == token.QUO || bo.Op == token.AND) && !okNeg {
+				okNeg = true // a remainder, quotient by a constant or masked value is not the smallest integer
+			}
+			if smallInt(s.v.Type()) {
+				okNeg = true
+			}
+			if okNeg {
+				c.S.OK("A8-bounds", key, c.Pos(c.InstrPos(s.in)), fmt.Sprintf("negated %s cannot be the smallest integer", src))
+			} else {
+				c.S.Bad("A8-bounds", key, c.Pos(c.InstrPos(s.in)), fmt.Sprintf("%s negates a number derived from %s that can be the smallest integer (no dominating comparison excludes it, and it is not a sum with a positive constant): the result is negative again and passes the range test that follows", fnName(fn), src))
+			}
+			continue
+		}
 		if len(missing) == 0 {
 			c.S.OK("A8-bounds", key, c.Pos(c.InstrPos(s.in)), fmt.Sprintf("%s derived from %s is bounded on every path", s.kind, src))
 		} else {
@@ -1126,4 +1156,102 @@ func ruleA8(c *Ctx) {
 		}
 	}
 	_ = sort.Strings
+}
+
+// excludesMin: on the way to blk a test of v (through conversions; two loads of one address count as one value) against
+// a constant leaves out the smallest integer: `v == MinInt` / `v != MinInt` on the right edge, or v >= k, v > k.
+func excludesMin(v ssa.Value, blk *ssa.BasicBlock) bool {
+	root := func(x ssa.Value) ssa.Value {
+		for i := 0; i < 6; i++ {
+			switch y := x.(type) {
+			case *ssa.Convert:
+				x = y.X
+			case *ssa.ChangeType:
+				x = y.X
+			default:
+				return x
+			}
+		}
+		return x
+	}
+	same := func(a, b ssa.Value) bool {
+		a, b = root(a), root(b)
+		if a == b {
+			return true
+		}
+		ua, ok1 := a.(*ssa.UnOp)
+		ub, ok2 := b.(*ssa.UnOp)
+		return ok1 && ok2 && ua.Op == token.MUL && ub.Op == token.MUL && ua.X == ub.X
+	}
+	isMin := func(k int64, t types.Type) bool {
+		if k == math.MinInt64 {
+			return true
+		}
+		if b, ok := t.Underlying().(*types.Basic); ok && b.Kind() == types.Int32 {
+			return k == math.MinInt32
+		}
+		return false
+	}
+	for d := blk; d != nil; d = d.Idom() {
+		p := d.Idom()
+		if p == nil {
+			break
+		}
+		ifi, ok := p.Instrs[len(p.Instrs)-1].(*ssa.If)
+		if !ok || len(p.Succs) != 2 || p.Succs[0] == p.Succs[1] {
+			continue
+		}
+		idx := -1
+		for i, sc := range p.Succs {
+			if (sc == d || sc.Dominates(d)) && len(sc.Preds) == 1 {
+				idx = i
+			}
+		}
+		if idx < 0 {
+			continue
+		}
+		bo, ok := ifi.Cond.(*ssa.BinOp)
+		if !ok {
+			continue
+		}
+		x, y := bo.X, bo.Y
+		op := bo.Op
+		if _, isC := constInt(x); isC {
+			x, y = y, x
+			switch op {
+			case token.LSS:
+				op = token.GTR
+			case token.GTR:
+				op = token.LSS
+			case token.LEQ:
+				op = token.GEQ
+			case token.GEQ:
+				op = token.LEQ
+			}
+		}
+		k, isC := constInt(y)
+		if !isC || !same(x, v) {
+			continue
+		}
+		onTrue := idx == 0
+		switch op {
+		case token.EQL:
+			if !onTrue && isMin(k, x.Type()) {
+				return true
+			}
+		case token.NEQ:
+			if onTrue && isMin(k, x.Type()) {
+				return true
+			}
+		case token.LSS, token.LEQ:
+			if !onTrue && (k > math.MinInt64 || op == token.LEQ) {
+				return true
+			}
+		case token.GEQ, token.GTR:
+			if onTrue && (k > math.MinInt64 || op == token.GTR) {
+				return true
+			}
+		}
+	}
+	return false
 }
